@@ -842,3 +842,191 @@ def normalise(module: ast.Module, repo: Path | None = None, keep=()) -> ast.Modu
     Normaliser(tree, repo, keep).run()
     ast.fix_missing_locations(tree)
     return tree
+
+
+# ------------------------------------------------------------------------------------------------ self-test
+
+SELFTEST_SRC = '''
+LIMIT = 3
+PAIR = (1, 2)
+COUNTER = 0
+
+def bump():
+    global COUNTER
+    COUNTER += 1
+    return COUNTER
+
+def width(v, base=1):
+    if isinstance(v, list):
+        return len(v)
+    return base
+
+def pair(a, b):
+    return a * 10, b * 10
+
+def noisy(log, x):
+    log.append(x)
+    return x
+
+def first_or(xs, d):
+    for x in xs:
+        return x
+    return d
+
+class Box:
+    def __init__(self, items):
+        self.items = items
+        self.other = [0]
+        self.log = []
+
+    def _w(self, v):
+        if not isinstance(v, list):
+            return 1
+        return len(v)
+
+    def _store(self, key, value):
+        self.log.append((key, value))
+
+    def _scaled(self, v, k):
+        r = []
+        for x in v:
+            r.append(x * k)
+        return r
+
+    def total(self):
+        n = sum(self._w(v) for v in self.items)
+        return n
+
+    def widths(self):
+        ws = [width(v) for v in self.items if v != "skip"]
+        return ws
+
+    def walk(self):
+        out, a = [], 0
+        for v in self.items:
+            vals = v
+            if vals == "_":
+                out.append(("s", a))
+                a += 1
+                continue
+            if not isinstance(vals, list):
+                raise ValueError("bad")
+            n = len(vals)
+            match n:
+                case 0:
+                    out.append(("empty", a))
+                case 1 | 2:
+                    out.append(("small", a, n))
+                case _:
+                    out.append(("big", a, n))
+            a += n
+        return out, a
+
+    def stop_early(self):
+        seen = []
+        for v in self.items:
+            if v == "stop":
+                break
+            if v == "skip":
+                continue
+            seen.append(v)
+        return seen
+
+    def alias_ok(self):
+        it = self.items
+        n = len(it)
+        return [n, len(it), it is self.items]
+
+    def alias_reassigned(self):
+        cur = self.items
+        self.items = ["changed"]
+        return cur
+
+    def alias_mutated(self):
+        n = len(self.items)
+        self.items.append("x")
+        return n, len(self.items)
+
+    def alias_rebound_free(self, k):
+        a = k
+        start = a
+        a = a + 5
+        return start, a
+
+    def use_store(self):
+        for i, v in enumerate(self.items):
+            self._store(i, noisy(self.log, v))
+        return self.log
+
+    def order(self):
+        log = []
+        r = noisy(log, 1) + width(noisy(log, [2, 3]), base=noisy(log, 7))
+        return r, log
+
+    def tuples(self, a, b):
+        x, y = pair(a, b)
+        y, x = pair(x, y)
+        return x, y
+
+    def cond(self, k):
+        w = 10 if k > LIMIT else PAIR[0]
+        w += 1 if k % 2 else 2
+        return w if k else -1
+
+    def slices(self, xs, a, b):
+        part = slice(a, a + b)
+        return xs[part], xs[slice(b)]
+
+    def scaled(self, k):
+        return [self._scaled(v, k) for v in self.items if isinstance(v, list)]
+
+    def shadow(self):
+        LIMIT = 99
+        return LIMIT + width([1], 5)
+
+    def glob(self):
+        return COUNTER + bump() + COUNTER
+
+    def loopret(self):
+        return first_or(self.items, "none")
+'''
+
+SELFTEST_CALLS = [("total", ()), ("widths", ()), ("walk", ()), ("stop_early", ()), ("alias_ok", ()), ("alias_reassigned", ()),
+                  ("alias_mutated", ()), ("alias_rebound_free", (3,)), ("use_store", ()), ("order", ()), ("tuples", (1, 2)),
+                  ("cond", (0,)), ("cond", (3,)), ("cond", (4,)), ("cond", (7,)), ("slices", ([1, 2, 3, 4, 5], 1, 2)),
+                  ("scaled", (3,)), ("shadow", ()), ("glob", ()), ("loopret", ())]
+SELFTEST_ITEMS = [[], ["_"], ["_", ["_", "_"], "_"], [["_"] * 3, "_", []], ["_", 5], ["skip", "_", "stop", "_"], [[1, 2], "skip", [3]]]
+
+
+def selftest() -> int:
+    """The normalised module computes what the module as written computes (results, exceptions, effects on the
+    objects) on a fixed set of functions that exercise every rule, blocked cases included -> number of comparisons."""
+    src = ast.parse(SELFTEST_SRC)
+    norm = normalise(src, None, ())
+    changed = ast.dump(src) != ast.dump(norm)
+    if not changed:
+        raise AssertionError("normaliser self-test: nothing was rewritten")
+    for n in ast.walk(norm):
+        if isinstance(n, (ast.Match, ast.IfExp)):
+            raise AssertionError("normaliser self-test: a match / conditional expression survived")
+    envs = []
+    for tree in (src, norm):
+        g = {}
+        exec(compile(tree, "<c10_norm selftest>", "exec"), g)  # noqa: S102
+        envs.append(g)
+    count = 0
+    for items in SELFTEST_ITEMS:
+        for name, args in SELFTEST_CALLS:
+            res = []
+            for g in envs:
+                g["COUNTER"] = 0
+                box = g["Box"](copy.deepcopy(items))
+                try:
+                    r = ("ok", getattr(box, name)(*copy.deepcopy(args)))
+                except Exception as ex:  # noqa: BLE001
+                    r = ("raised", type(ex).__name__)
+                res.append(repr((r, box.items, box.log, g["COUNTER"])))
+            if res[0] != res[1]:
+                raise AssertionError(f"normaliser self-test: {name}{args} on {items}: {res[0]} != {res[1]}")
+            count += 1
+    return count
